@@ -50,6 +50,8 @@ func Run(r *core.Run) {
 		switch rec.Key["part"] {
 		case "erase":
 			replayErase(r, rec.Detail)
+		case "tsconfig":
+			replayTsconfig(r, rec.Detail)
 		default:
 			replayRuntime(r, fmt.Sprint(rec.Key["part"]), rec.Detail)
 		}
@@ -68,9 +70,13 @@ func Run(r *core.Run) {
 		wg.Add(1)
 		go func() { defer wg.Done(); runtimeBinding(r) }()
 	}
+	if os.Getenv("C06_SKIP_TSCONFIG") == "" {
+		wg.Add(1)
+		go func() { defer wg.Done(); tsconfigBinding(r) }()
+	}
 	wg.Wait()
 	if n := r.DriftCount(); n > 10 {
 		r.Infra("the TLA+ reference disagrees with V8 on %d cases: drift exceeds the budget, no verdict", n)
 	}
-	r.Set("rule", "part 1: variants = every (skeleton, set of <= MaxIns insertions) reachable in spec/TsErase.tla, enumerated exhaustively by TLC for the sampled filler alphabet; a variant is non-trivial iff >= 1 insertion is at an ambiguous position/form (generic call/instantiation, <T>x cast, arrow return type, generic arrow, non-null '!', this-parameter, overload, '>>'/'>=' splitting, conditional/infer/template-literal/mapped/function type, abstract/declare member) or the skeleton itself is one of the delicate JavaScript forms (a < b > (c), a ? (b) : c => d, contextual keywords as identifiers); distinct by (skeleton text, insertion set). part 2: every enum/namespace/class scenario is a TS-only runtime construct and counts as non-trivial; distinct by scenario source")
+	r.Set("rule", "part 1: variants = every (skeleton, set of <= MaxIns insertions) reachable in spec/TsErase.tla, enumerated exhaustively by TLC for the sampled filler alphabet; a variant is non-trivial iff >= 1 insertion is at an ambiguous position/form (generic call/instantiation, <T>x cast, arrow return type, generic arrow, non-null '!', this-parameter, overload, '>>'/'>=' splitting, conditional/infer/template-literal/mapped/function type, abstract/declare member) or the skeleton itself is one of the delicate JavaScript forms (a < b > (c), a ? (b) : c => d, contextual keywords as identifiers, every skeleton of the family nest: a speculative context around a payload that starts a speculation itself); distinct by (skeleton text, insertion set). tsconfig: a chain of tsconfig files is non-trivial iff some field is overridden along the chain or strict/alwaysStrict interplay is involved; distinct by (levels, link shapes). part 2: every enum/namespace/class scenario is a TS-only runtime construct and counts as non-trivial; distinct by scenario source")
 }
